@@ -54,6 +54,27 @@ LOWER_GLUE = ["Module::resolve_special_instrumentation: the per-function driver 
 ENCODE_GLUE = "Module::encode_internal (src/ir/module/mod.rs): the call sites of recalculate_ids / fix_op_id_mapping and the per-section emission loops are not under contract"
 
 PROPS = {
+    "C01": {
+        "title": "Unmodified parse-then-encode yields a valid module",
+        "units": ["V9b_conv"],
+        "kani": ["k1_valtype_roundtrip", "k1_valtype_roundtrip_exn_cont", "k1_valtype_encoder_matches_upstream"],
+        "obligations": ["K:k1_*", "V9b_conv.*.into_wasmparser.*", "V9b_conv.fn:* as From::from"],
+        "glue": ["Module::parse_internal and Module::encode_internal (payload decoding, section re-emission) are not under contract; `passes validation` is a predicate of wasmparser's validator over bytes produced there: not decided",
+                 "profile of K1: numeric and vector types, unshared abstract heap types, concrete module type indices < 2^20; `shared` heap types and RecGroup/Id indices are outside it"],
+        "design_ref": "DESIGN.md §4 K1, §5 C01",
+        "level_text": "Only the library's own type-conversion layer: every value type of the profile survives ValType -> DataType -> ValType unchanged and is re-emitted as exactly the wasm-encoder type upstream's re-encoder produces (Kani, complete over the profile); heap-type and block-type conversions are proved exact (Verus).",
+    },
+    "C02": {
+        "title": "Unmodified round trip preserves module content",
+        "units": ["V3_remap", "V9b_conv"],
+        "kani": ["k1_valtype_roundtrip", "k1_valtype_roundtrip_exn_cont", "k1_valtype_encoder_matches_upstream", "k4_v128_bytes_preserved", "k4_ieee32_from_float_bits", "k4_ieee64_from_float_bits"],
+        "obligations": ["K:k1_*", "K:k4_*", "V3_remap.lemma.identity_remap_is_noop", "V3_remap.fn:lemma_identity_remap_is_noop", "V3_remap.fix_op_id_mapping.*", "V3_remap.fn:fix_op_id_mapping",
+                        "V9b_conv.*.into_wasmparser.*", "V9b_conv.fn:* as From::from"],
+        "glue": ["section order, names, custom-section replay, element / data / table emission are inside parse_internal / encode_internal: not under contract",
+                 "InitExpr::eval / to_wasmencoder_type (constant expressions) are not under contract: only the bit-exactness of the float / v128 wrappers they use is proved"],
+        "design_ref": "DESIGN.md §4 K1 K4, §5 C02",
+        "level_text": "Instructions survive encode's in-place id rewrite when nothing was edited (identity maps leave every operator unchanged: corollary of the exact remap contract), value types survive the IR, float / v128 constants keep their bits. Everything about sections is glue.",
+    },
     "C04": {
         "title": "Encoding is deterministic",
         "units": ["V7_types"],
@@ -151,7 +172,8 @@ PROPS = {
     "C30": {
         "title": "Module-level additions appear exactly as requested",
         "units": ["V6b_api2", "V3_remap"],
-        "obligations": V6_GLOBALS + V6_MEMS + ["V6b_api2.add_data.*", "V6b_api2.fn:Module::add_data", "V6b_api2.ModuleExports.add_export_*", "V6b_api2.fn:ModuleExports::add_export_*",
+        "kani": ["k1_valtype_roundtrip", "k1_valtype_roundtrip_exn_cont", "k4_v128_bytes_preserved", "k4_ieee32_from_float_bits", "k4_ieee64_from_float_bits"],
+        "obligations": ["K:k1_valtype_roundtrip*", "K:k4_*"] + V6_GLOBALS + V6_MEMS + ["V6b_api2.add_data.*", "V6b_api2.fn:Module::add_data", "V6b_api2.ModuleExports.add_export_*", "V6b_api2.fn:ModuleExports::add_export_*",
                         "V3_remap.InitInstr.*", "V3_remap.fn:InitInstr::fix_id_mapping"],
         "glue": [ENCODE_GLUE, "DataType -> ValType (content type) is abstract here (valtype_of); bit-exactness of constants (InitExpr::to_wasmencoder_type) and the emission of limits / payloads are not under contract at this commit"],
         "design_ref": "DESIGN.md §5 C30",
@@ -237,10 +259,11 @@ PROPS = {
     "C24": {
         "title": "Opcode helpers emit exactly the named instruction",
         "units": ["V9_opcode", "V9b_conv"],
-        "obligations": ["V9_opcode.Opcode.*", "V9_opcode.MacroOpcode.*", "V9_opcode.fn:Opcode::*", "V9_opcode.fn:MacroOpcode::*",
+        "kani": ["k4_ieee32_from_float_bits", "k4_ieee64_from_float_bits", "k1_valtype_roundtrip"],
+        "obligations": ["K:k4_ieee*", "K:k1_valtype_roundtrip", "V9_opcode.Opcode.*", "V9_opcode.MacroOpcode.*", "V9_opcode.fn:Opcode::*", "V9_opcode.fn:MacroOpcode::*",
                         "V9b_conv.*.into_wasmparser.*", "V9b_conv.fn:* as From::from"],
         "glue": ["which list `inject` appends to is the receiver's business (FunctionBuilder / iterators: unit V4)",
-                 "DataType -> ValType inside a block type and f32/f64 -> Ieee32/Ieee64 are abstract here (uninterpreted valtype_of / ieee32_of / ieee64_of); decided by the Kani units K1/K4 when claimed"],
+                 "DataType -> ValType inside a block type and f32/f64 -> Ieee32/Ieee64 are abstract in the Verus unit (uninterpreted valtype_of / ieee32_of / ieee64_of); their exactness is decided by the Kani harnesses k1_valtype_roundtrip / k4_ieee*_from_float_bits on the real functions"],
         "design_ref": "DESIGN.md §4 K2 (moved to Verus: V9), §5 C24",
         "level_text": "Each of the 200 helpers is proved, for all immediates, to append exactly one operator - the variant wasmparser's own naming assigns to the helper's name - with every immediate passed through unchanged (u32_const/u64_const: the two's-complement reinterpretation `as`).",
     },
@@ -275,4 +298,11 @@ PROPS = {
     },
 }
 
-NOT_APPLICABLE = {}
+HOOK_COMMITS = ["6108179", "dd5c5ea"]
+
+NOT_APPLICABLE = {
+    "C03": "partial only and not built at this commit: panic-freedom of the parse path lives in Module::parse_internal / Component::parse_comp (480 + 300 lines of wasmparser payload handling: outside Verus' supported subset and far beyond CBMC's memory, see DESIGN.md §1); the extractable callees alone decide nothing the statement says",
+    "C16": "behavioural equivalence of original and instrumented module needs a WebAssembly execution semantics and a simulation proof; neither installed deductive verifier has one, and a syntactic contract cannot express it",
+    "C23": "the side-effect report is assembled inside encode_internal and in closure-based add_injections that push into HashMap<InjectType, Vec<_>> through the entry API: outside Verus' supported subset, and a non-empty HashMap is out of Kani's reach (>100 s per operation, memory blow-up)",
+    "C27": "the nesting-stack logic and section replay are inline in Component::parse_comp / encode_comp (wasmparser payload streams, recursion over nested components); no separately contractable function decides anything the statement says",
+}
